@@ -142,7 +142,10 @@ class Scope(Error):
             self._added.add(name)
 
     def nlri_add(self, name: str, command: str, data: Any) -> None:
-        self.get_route().nlri.add(data)
+        if self.get_route().nlri.add(data) is False:
+            # a flow rule refuses a source and a destination prefix of different address families:
+            # dropping the component silently would send a broader rule than the one written
+            raise ValueError(f'{command}: this component cannot be added to the rule (address family of the other prefix)')
 
     # Settings mode: deferred NLRI construction
 
